@@ -98,7 +98,7 @@ def nestedWait (useSys : Bool) (digits : List Nat) (salt : Nat) (sts : List Nat)
   if !useSys then sts
   else
     let s := run 100000 (mkChoices digits salt)
-      { children := mkChildren digits salt sts, todo := waitAll 0 sts.length ++ [.reapAll] }
+      { children := mkChildren digits salt sts, todo := waitAll 0 sts.length }
     let got := s.results.reverse.map waitStatus
     if got.length = sts.length ∧ s.final then got else sts.map fun _ => 999
 
@@ -176,29 +176,17 @@ def St.members (st : St) (ms : List Member) : List Nat :=
     | m :: t => memberStatus st.useSys st.digits (st.runs * 8 + k) m :: go (k + 2) t
   go 0 ms
 
-/-- `wait_while_running(job_status(index))`: `jobStatus` on the job table, else
-    `wait_for_any_job_or_trap` (request `wait(-1)` of the model) and look again.  `none` = the built-in
-    fails ("no job to wait for") or the model does not terminate. -/
-def St.awaitJob : Nat → St → Nat → St × Option WaitRes
-  | 0, st, _ => (st, none)
-  | f + 1, st, idx =>
-    match jobStatus st.active st.sys.log idx with
-    | some (res, jobs') => ({ st with active := jobs' }, some res)
-    | none =>
-      let st' := st.exec [.wait .any]
-      match st'.sys.results with
-      | .echild :: _ => (st', none)
-      | _ => St.awaitJob f st' idx
-
-/-- `Command::await_jobs`, the loop over the resolved operands: `None → NOT_FOUND`, `Some(index) →
-    wait_while_running`; the exit status is that of the last operand (998 = the built-in failed) -/
-def St.awaitJobs : St → List (Option Nat) → Nat → St × Nat
-  | st, [], last => (st, last)
-  | st, none :: t, _ => St.awaitJobs st t (waitStatus .echild)
-  | st, some idx :: t, _ =>
-    match St.awaitJob 64 st idx with
-    | (st1, some res) => St.awaitJobs st1 t (waitStatus res)
-    | (st1, none) => (st1, 998)
+/-- `Command::await_jobs` over the resolved operands, by the executable loops of `Model.lean`
+    (`awaitJobsRun`: `None → NOT_FOUND`, `Some(index) → wait_while_running`, one `run` of the request
+    `wait(-1)` per `wait_for_any_job_or_trap`); the exit status is that of the last operand (998 = the
+    built-in failed or the driver's fuel ran out).  `Theorems.lean` `wait_builtin_end_to_end` is about
+    exactly this call. -/
+def St.awaitJobs (st : St) (ops : List (Option Nat)) (last : Nat) : St × Nat :=
+  match awaitJobsRun 100000 64 (fun k => mkChoices st.digits (st.runs + k)) st.active st.sys ops with
+  | some (jobs', s', rs) =>
+    ({ st with active := jobs', sys := s', runs := st.runs + 65 },
+     ((rs.map waitStatus).getLast?).getD last)
+  | none => ({ st with runs := st.runs + 65 }, 998)
 
 /-- `search::resolve` for the operand forms of the run: `some (some pid)` = a process ID (a job's or not),
     `some none` = a job ID naming no job, `none` = an ambiguous job ID (the built-in fails) -/
